@@ -75,6 +75,15 @@ def check_dtype(repo, res, fns):
     for fn in fns:
         if "sparse" not in fn.all_params:
             continue
+        # `if sparse: return X` followed by the dense construction: the rest of the block is the else branch
+        rest_of = {}
+        for blk_owner in ast.walk(fn.node):
+            for field in ("body", "orelse", "finalbody"):
+                blk = getattr(blk_owner, field, None)
+                if isinstance(blk, list):
+                    for i, st in enumerate(blk):
+                        if isinstance(st, ast.If) and not st.orelse and st.body and isinstance(st.body[-1], (ast.Return, ast.Raise)):
+                            rest_of[st] = blk[i + 1 :]
         for node in ast.walk(fn.node):
             if isinstance(node, (ast.If, ast.IfExp)):
                 t = node.test
@@ -83,7 +92,7 @@ def check_dtype(repo, res, fns):
                 if not (isinstance(t, ast.Name) and t.id == "sparse"):
                     continue
                 a = dtypes(node.body if isinstance(node, ast.If) else [node.body])
-                b = dtypes(node.orelse if isinstance(node, ast.If) else [node.orelse])
+                b = dtypes((node.orelse or rest_of.get(node, [])) if isinstance(node, ast.If) else [node.orelse])
                 if not a or not b:
                     continue
                 n += 1
@@ -99,10 +108,25 @@ def local_defs(fn, name):
     return [s for s in own_statements(fn.node) if isinstance(s, ast.Assign) and any(name in {x.id for x in ast.walk(t) if isinstance(x, ast.Name)} for t in s.targets)]
 
 
+def expand_helper(fn, expr):
+    """`_index_map(ids)` -> the helper's single return expression with its parameters replaced by the arguments
+    (same-module helper whose body is one return statement); otherwise the expression itself."""
+    from ..provenance import subst
+
+    if isinstance(expr, ast.Call) and isinstance(expr.func, ast.Name) and not expr.keywords:
+        h = fn.module.functions.get(expr.func.id)
+        if h is not None and h is not fn:
+            body = [b for b in h.node.body if not (isinstance(b, ast.Expr) and isinstance(b.value, ast.Constant))]
+            if len(body) == 1 and isinstance(body[0], ast.Return) and body[0].value is not None and len(expr.args) == len(h.params):
+                return subst(body[0].value, dict(zip(h.params, expr.args)))
+    return expr
+
+
 def map_provenance(fn, expr, depth=0):
     """Classify the expression of a returned index map: 'inverse-of-placement' / 'callee' / 'enumerate-view' / 'empty' / None."""
     if depth > 4:
         return None, "too deep"
+    expr = expand_helper(fn, expr)
     if isinstance(expr, ast.Dict) and not expr.keys:
         return "empty", ""
     if isinstance(expr, ast.DictComp):
@@ -113,7 +137,7 @@ def map_provenance(fn, expr, depth=0):
             if isinstance(expr.key, ast.Name) and isinstance(expr.value, ast.Name) and isinstance(k, ast.Name) and isinstance(v, ast.Name) and expr.key.id == v.id and expr.value.id == k.id:
                 fwd = g.iter.func.value.id
                 for d in local_defs(fn, fwd):
-                    val = d.value
+                    val = expand_helper(fn, d.value)
                     if isinstance(val, ast.Call) and getattr(val.func, "id", None) == "dict" and val.args and isinstance(val.args[0], ast.Call) and getattr(val.args[0].func, "id", None) == "zip" and len(val.args[0].args) == 2 and isinstance(val.args[0].args[1], ast.Call) and getattr(val.args[0].args[1].func, "id", None) == "range":
                         if not is_view_order(fn, val.args[0].args[0]):
                             return None, f"`{fwd}` numbers `{unparse(val.args[0].args[0], 40)}`, which is not a node/edge view in view order; callers that use the matrix without the index maps rely on row i being the i-th ID of the view"
